@@ -180,11 +180,12 @@ def search(chk: common.Check, rng, n_events: int):
         S1 = R(rng.randint(0, 200), 13)
         S2 = R(rng.randint(0, 200), 11)
         S3 = R(rng.randint(0, 200), 17)
-        subs = {s1: S1, s2: S2, s3: S3, m0: M0, m1: ms[0], m2: ms[1], m3: ms[2], ov: R(-7)}
+        OV = rng.choice([R(-7), R(0), R(1, 3)])  # 0 is a legitimate (falsy) outside value
+        subs = {s1: S1, s2: S2, s3: S3, m0: M0, m1: ms[0], m2: ms[1], m3: ms[2], ov: OV}
         pairs = [
             ("compute_third_mandelstam", ps.compute_third_mandelstam(S1, S2, M0, *ms), sym_third.subs(subs)),
             ("Kibble", ps.Kibble(S1, S2, S3, M0, *ms).doit(), sym_kib.doit().subs(subs)),
-            ("is_within_phasespace", ps.is_within_phasespace(S1, S2, M0, *ms, outside_value=R(-7)).doit(), sym_ind.doit().subs(subs)),
+            ("is_within_phasespace", ps.is_within_phasespace(S1, S2, M0, *ms, outside_value=OV).doit(), sym_ind.doit().subs(subs)),
             ("Kallen", ps.Kallen(S1, ms[0], ms[1]).doit(), ps.Kallen(s1, m1, m2).doit().subs(subs)),
         ]
         chk.count(("numeric-construction", i, tuple(map(str, ms))))
@@ -216,6 +217,7 @@ PROP = T1Property(
     prop_modules=["Ampverif.Props.C20"],
     n_points={"quick": 40, "thorough": 400},
     n_search={"quick": 300, "thorough": 20000},
+    expected_facts={"default_outside_value_is_nan": True},
 )
 
 MANIFEST = {
